@@ -205,6 +205,29 @@ Proof.
   rewrite C1, C2, (counts_le_of_perm _ _ Hp), (Permutation_length Hp), Nat.eqb_refl. cbn. now rewrite andb_false_r.
 Qed.
 
+(* ------------------------------------------------------------------ MX arithmetic (constants of the current source) *)
+Lemma mx_facts mx :
+  (mx_delay mx = 0 /\ 0 <= mx_window mx)%Z \/
+  (1 <= mx_delay mx /\ 1000 * mx_delay mx <= mx_window mx)%Z.
+Proof.
+  unfold mx_delay, mx_window, mx_floor, mx_cap. destruct mx as [s|]; [|left; lia].
+  destruct (int_of_str s) as [z|e]; [|left; lia]. lia.
+Qed.
+
+(* what the scheduling arithmetic of _on_data must satisfy: the delay is positive and ends before MX *)
+Lemma randrange_facts d pick : (1 <= d)%Z ->
+  exists r, randrange rnd_lo (d * rnd_scale + rnd_off) pick = Some r /\
+            (0 < r * 1000 / rnd_div < d * 1000)%Z.
+Proof.
+  intros Hd. unfold randrange, rnd_lo, rnd_scale, rnd_off, rnd_div.
+  match goal with |- context [(?lo <? ?hi)%Z] => assert (E : (lo <? hi)%Z = true) by lia; rewrite E end.
+  eexists. split; [reflexivity|].
+  match goal with |- context [(pick mod ?m)%Z] => pose proof (Z.mod_pos_bound pick m) as B end.
+  match goal with |- (0 < ?x * 1000 / ?dv < _)%Z =>
+    assert (Q : (x * 1000 / dv = x)%Z) by (apply Z.div_mul; lia); rewrite Q end.
+  lia.
+Qed.
+
 (* ------------------------------------------------------------------ the invariant *)
 Section Invariant.
   Variable cfg : config.
@@ -461,24 +484,6 @@ Section Invariant.
   Qed.
 
   (* ---------------------------------------------------------------- OSearch *)
-  Lemma mx_facts mx :
-    (mx_delay mx = 0 /\ 0 <= mx_window mx)%Z \/
-    (1 <= mx_delay mx <= 5 /\ 1000 * mx_delay mx <= mx_window mx)%Z.
-  Proof.
-    unfold mx_delay, mx_window, mx_floor, mx_cap. destruct mx as [s|]; [|left; lia].
-    destruct (int_of_str s) as [z|e]; [|left; lia]. lia.
-  Qed.
-
-  Lemma randrange_facts d pick : (1 <= d <= 5)%Z ->
-    exists r, randrange rnd_lo (d * rnd_scale + rnd_off) pick = Some r /\ (100 <= r < d * 1000 - 250)%Z /\
-              (r * 1000 / rnd_div = r)%Z.
-  Proof.
-    intros Hd. unfold randrange, rnd_lo, rnd_scale, rnd_off, rnd_div.
-    assert (E : (100 <? d * 1000 + -250)%Z = true) by lia. rewrite E.
-    eexists. split; [reflexivity|]. pose proof (Z.mod_pos_bound pick (d * 1000 + -250 - 100)) as B.
-    split; [lia|]. apply Z.div_mul. lia.
-  Qed.
-
   Definition add_pending (s : state) (p : Z * N * list msg) : state :=
     {| s_now := s_now s; s_pending := s_pending s ++ [p]; s_ann := s_ann s |}.
 
@@ -509,9 +514,9 @@ Section Invariant.
     - left. split; [reflexivity|]. now rewrite <- T.
     - destruct (mx_facts mx) as [[D Wd]|[D Wd]].
       + right. left. exists (m :: ms). rewrite D. cbn [Z.eqb]. auto.
-      + right. right. destruct (randrange_facts (mx_delay mx) pick D) as [r [R [Rb Rd]]].
-        assert (Dz : (mx_delay mx =? 0)%Z = false) by lia. rewrite Dz, R, Rd.
-        exists (m :: ms), (s_now s + r)%Z. split; [reflexivity|]. split; [exact T|]. split; [exact G'|]. lia.
+      + right. right. destruct (randrange_facts (mx_delay mx) pick D) as [r [R Rb]].
+        assert (Dz : (mx_delay mx =? 0)%Z = false) by lia. rewrite Dz, R.
+        exists (m :: ms), (s_now s + r * 1000 / rnd_div)%Z. split; [reflexivity|]. split; [exact T|]. split; [exact G'|]. lia.
   Qed.
 
   Lemma fresh_dest s k ops line man st mx dest pick :
@@ -658,4 +663,277 @@ Section Invariant.
         * now apply Hnd'.
         * exact I5.
   Qed.
+
+  (* ---------------------------------------------------------------- OAdvance *)
+  Definition duep (target : Z) (p : Z * N * list msg) : bool := (fst (fst p) <=? target)%Z.
+  Definition resp_block (p : Z * N * list msg) : list sent := send_all (fst (fst p)) (snd (fst p)) (snd p).
+
+  Lemma zlist_eqb_refl l : zlist_eqb l l = true.
+  Proof. induction l as [|x r IH]; [reflexivity|]. cbn. rewrite Z.eqb_refl. exact IH. Qed.
+
+  Lemma flat_map_single (A B : Type) (f : A -> B) l : flat_map (fun x => [f x]) l = map f l.
+  Proof. induction l as [|x r IH]; [reflexivity|]. cbn. now rewrite IH. Qed.
+
+  Lemma nth_adv_single i dm : nth_adv advs i = [nth (Nat.modulo i NN) advs dm].
+  Proof.
+    unfold nth_adv. fold NN. pose proof NN_pos as P.
+    rewrite (nth_error_nth' advs dm) by (apply Nat.mod_upper_bound; lia). reflexivity.
+  Qed.
+
+  Definition asent_of (a : Z) (idx n : nat) (dm : msg) : list sent :=
+    map (fun j => {| x_time := (a + Z.of_nat j * announce_interval_ms)%Z; x_dest := target_tok;
+                     x_msg := nth (Nat.modulo (idx + j) NN) advs dm |}) (seq 0 n).
+
+  Lemma asent_simpl a idx n dm :
+    flat_map (fun j => send_all (a + Z.of_nat j * announce_interval_ms)%Z target_tok (nth_adv advs (idx + j))) (seq 0 n) =
+    asent_of a idx n dm.
+  Proof.
+    unfold asent_of. rewrite <- flat_map_single. apply flat_map_ext. intros j. now rewrite (nth_adv_single _ dm).
+  Qed.
+
+  Lemma asent_good a idx n dm : Forall (is_good_nts nts_alive) (asent_of a idx n dm).
+  Proof.
+    apply Forall_forall. intros x Hx. apply in_map_iff in Hx as [j [<- _]].
+    pose proof (advs_good nts_alive (or_introl eq_refl)) as A. fold advs in A. rewrite Forall_forall in A.
+    assert (Hin : In (nth (Nat.modulo (idx + j) NN) advs dm) advs).
+    { apply nth_In. apply Nat.mod_upper_bound. pose proof NN_pos. lia. }
+    destruct (A _ Hin) as [A1 [A2 A3]]. unfold is_good_nts. cbn [x_msg x_dest]. auto.
+  Qed.
+
+  Lemma mon_adv_advance k dt now' sentl alives a idx dflt :
+    filter is_alive sentl = alives -> filter is_byebye sentl = [] -> forallb others sentl = true ->
+    k_next k = Some a -> k_seen k = rev (firstn idx L) -> (idx < NN)%nat ->
+    map g_time alives = map (fun j => (a + Z.of_nat j * announce_interval_ms)%Z) (seq 0 (alive_count a now')) ->
+    map gpair alives = map (fun j => nth (Nat.modulo (idx + j) NN) L dflt) (seq 0 (alive_count a now')) ->
+    mon_adv root k (OAdvance dt) now' sentl =
+    (Some (a + Z.of_nat (alive_count a now') * announce_interval_ms)%Z,
+     rev (firstn (Nat.modulo (idx + alive_count a now') NN) L), []).
+  Proof.
+    intros Ha Hb Ho Hn Hs Hi Ht Hp. unfold mon_adv. rewrite Ha, Hb, Hn, Hs, Ht, Hp. fold others. rewrite Ho.
+    fold all. rewrite <- L_length.
+    assert (P1 : (0 < length L)%nat) by (rewrite L_length; apply NN_pos).
+    assert (P2 : (idx < length L)%nat) by (rewrite L_length; exact Hi).
+    rewrite (see_alives_cycle all L L_perm dflt P1 _ idx P2).
+    rewrite zlist_eqb_refl. reflexivity.
+  Qed.
+
+  Lemma filter_dest_block d p :
+    filter (fun x => x_dest x =? d) (resp_block p) = if snd (fst p) =? d then resp_block p else [].
+  Proof.
+    unfold resp_block, send_all. destruct (snd (fst p) =? d) eqn:E.
+    - apply filter_all_true. intros x Hx. apply in_map_iff in Hx as [m [<- _]]. exact E.
+    - apply filter_all_false. intros x Hx. apply in_map_iff in Hx as [m [<- _]]. exact E.
+  Qed.
+
+  Lemma mine_adv d due :
+    filter (fun g => g_dest g =? d) (map dg (flat_map resp_block due)) =
+    map dg (flat_map resp_block (filter (fun p => snd (fst p) =? d) due)).
+  Proof.
+    rewrite filter_map_comm. f_equal. unfold dg. cbn [dg_simple g_dest]. rewrite filter_flat_map.
+    induction due as [|p r IH]; [reflexivity|]. cbn [flat_map filter]. rewrite filter_dest_block, IH.
+    destruct (snd (fst p) =? d); reflexivity.
+  Qed.
+
+  Lemma due_pend d target pending :
+    filter (fun p => snd (fst p) =? d) (filter (duep target) pending) = filter (duep target) (pend_for d pending).
+  Proof. unfold pend_for. rewrite !filter_filter. apply filter_ext. intros p. apply andb_comm. Qed.
+  Lemma later_pend d target pending :
+    pend_for d (filter (fun p => negb (duep target p)) pending) =
+    filter (fun p => negb (duep target p)) (pend_for d pending).
+  Proof. unfold pend_for. rewrite !filter_filter. apply filter_ext. intros p. apply andb_comm. Qed.
+
+  Lemma duep_pair target when d (rs : list msg) : duep target (when, d, rs) = (when <=? target)%Z.
+  Proof. reflexivity. Qed.
+
+  Definition settle (target : Z) (pending : list (Z * N * list msg)) (w : owed) : owed :=
+    match pend_for (w_dest w) pending with
+    | [(when, _, rsw)] =>
+        if (when <=? target)%Z
+        then {| w_dest := w_dest w; w_t0 := w_t0 w; w_dl := w_dl w; w_orig := w_orig w; w_got := pairs_of rsw |}
+        else w
+    | _ => w
+    end.
+  Lemma settle_dest target pending w : w_dest (settle target pending w) = w_dest w.
+  Proof.
+    unfold settle. destruct (pend_for (w_dest w) pending) as [|[[when d] rsw] [|q r]]; try reflexivity.
+    destruct (when <=? target)%Z; reflexivity.
+  Qed.
+
+  Lemma adv_entry s target w s' : owed_ok s w ->
+    s_now s' = target -> s_pending s' = filter (fun p => negb (duep target p)) (s_pending s) ->
+    upd_owed target (map dg (flat_map resp_block (filter (duep target) (s_pending s)))) w =
+      (settle target (s_pending s) w, []) /\
+    owed_ok s' (settle target (s_pending s) w).
+  Proof.
+    intros H E1 E2. unfold owed_ok. rewrite E1, E2. unfold settle.
+    destruct H as [[Hg [when [rsw [Pf [Perm [A [B C]]]]]]]|[Perm Pf]].
+    - rewrite Pf. destruct (when <=? target)%Z eqn:E.
+      + split.
+        * apply (upd_answer cfg target _ w rsw when); auto; [|lia].
+          rewrite mine_adv, due_pend, Pf. cbn [filter]; rewrite ?duep_pair. rewrite E. cbn [flat_map resp_block fst snd].
+          now rewrite app_nil_r.
+        * right. cbn [w_got w_orig w_dest]. split; [exact Perm|]. rewrite later_pend, Pf. cbn [filter]; rewrite ?duep_pair.
+          now rewrite E.
+      + split.
+        * apply upd_idle; [|left; split; [exact Hg | left; lia]].
+          rewrite mine_adv, due_pend, Pf. cbn [filter]; rewrite ?duep_pair. now rewrite E.
+        * left. split; [exact Hg|]. exists when, rsw. rewrite later_pend, Pf. cbn [filter]; rewrite ?duep_pair. rewrite E. cbn [negb].
+          repeat split; auto. lia.
+    - rewrite Pf. split.
+      + apply upd_idle; [|now right]. now rewrite mine_adv, due_pend, Pf.
+      + right. split; [exact Perm|]. now rewrite later_pend, Pf.
+  Qed.
+
+  Lemma ann_strict a target : (target < a + Z.of_nat (alive_count a target) * announce_interval_ms)%Z.
+  Proof.
+    assert (P : (0 < announce_interval_ms)%Z) by reflexivity.
+    unfold alive_count. destruct (a <=? target)%Z eqn:E; [|lia].
+    assert (Q : (0 <= (target - a) / announce_interval_ms)%Z) by (apply Z.div_pos; lia).
+    rewrite Z2Nat.id by lia.
+    pose proof (Z.mul_succ_div_gt (target - a) announce_interval_ms P). lia.
+  Qed.
+
+  Lemma step_advance s k ops dt : Inv s k (OAdvance dt :: ops) ->
+    exists s' out k',
+      advance cfg s dt = (s', out, false) /\
+      mon_step root k (OAdvance dt) {| o_sent := map (dgram_of cfg) out; o_raised := false |} = (k', []) /\
+      Forall good_sent out /\ Inv s' k' ops /\ strict s'.
+  Proof.
+    intros I. set (target := (s_now s + dt)%Z).
+    set (due := filter (duep target) (s_pending s)).
+    set (later := filter (fun p => negb (duep target p)) (s_pending s)).
+    set (rsent := flat_map resp_block due).
+    assert (Gr : Forall is_good_resp rsent).
+    { apply Forall_forall. intros x Hx. apply in_flat_map in Hx as [p [Hp Hx]]. apply filter_In in Hp as [Hp _].
+      destruct (i_pend _ _ _ I p Hp) as [_ G]. apply in_map_iff in Hx as [m [<- Hm]]. rewrite Forall_forall in G.
+      exact (G m Hm). }
+    destruct (resp_filters _ Gr) as [R1 [R2 [R3 R4]]].
+    set (owed' := map (settle target (s_pending s)) (k_owed k)).
+    assert (Hupd : forall s', s_now s' = target -> s_pending s' = later ->
+              Forall2 (fun w w' => upd_owed target (map dg rsent) w = (w', []))
+                      (k_owed k ++ new_owed root (k_now k) (OAdvance dt)) owed' /\ Forall (owed_ok s') owed').
+    { intros s' E1 E2. cbn [new_owed]. rewrite app_nil_r. split.
+      - apply Forall2_map_self. intros w Hw. pose proof (i_owed _ _ _ I) as O. rewrite Forall_forall in O.
+        exact (proj1 (adv_entry s target w s' (O w Hw) E1 E2)).
+      - apply Forall_forall. intros w' Hw'. apply in_map_iff in Hw' as [w [<- Hw]].
+        pose proof (i_owed _ _ _ I) as O. rewrite Forall_forall in O.
+        exact (proj2 (adv_entry s target w s' (O w Hw) E1 E2)). }
+    assert (Hunsol : forallb (fun g => existsb (fun w => w_dest w =? g_dest g)
+                                               (k_owed k ++ new_owed root (k_now k) (OAdvance dt))) (map dg rsent) = true).
+    { cbn [new_owed]. rewrite app_nil_r. apply forallb_forall. intros g Hg. apply in_map_iff in Hg as [x [<- Hx]].
+      apply in_flat_map in Hx as [p [Hp Hx]]. apply filter_In in Hp as [Hp _].
+      destruct (i_pend _ _ _ I p Hp) as [Hd _]. apply in_map_iff in Hd as [w [Ew Hw]].
+      apply existsb_exists. exists w. split; [exact Hw|]. apply in_map_iff in Hx as [m [<- _]]. cbn. rewrite Ew. apply N.eqb_refl. }
+    assert (Hdests : map w_dest owed' = map w_dest (k_owed k)).
+    { unfold owed'. rewrite map_map. apply map_ext. intros w. apply settle_dest. }
+    assert (Hpend' : forall p, In p later ->
+               In (snd (fst p)) (map w_dest owed') /\ Forall (fun m => good_msg cfg m /\ m_kind m = MResponse) (snd p)).
+    { intros p Hp. apply filter_In in Hp as [Hp _]. rewrite Hdests. exact (i_pend _ _ _ I p Hp). }
+    assert (Hnd : NoDup (map w_dest owed' ++ flat_map op_dests ops)).
+    { rewrite Hdests. exact (i_dests _ _ _ I). }
+    unfold advance. fold target. change (fun p : Z * N * list msg => (fst (fst p) <=? target)%Z) with (duep target).
+    fold due. fold later. change (fun p : Z * N * list msg => send_all (fst (fst p)) (snd (fst p)) (snd p)) with resp_block.
+    fold rsent. fold advs.
+    pose proof (i_ann _ _ _ I) as A. destruct (s_ann s) as [[a idx]|] eqn:Ea.
+    - destruct A as [An [Ai As]]. set (n := ann_count a target).
+      set (dm := {| m_kind := MNotify; m_type := []; m_usn := []; m_nts := [] |}).
+      rewrite (asent_simpl a idx n dm).
+      pose proof (asent_good a idx n dm) as Ga. destruct (alive_filters _ Ga) as [A1 [A2 [A3 A4]]].
+      set (s' := {| s_now := target; s_pending := later;
+                    s_ann := Some ((a + Z.of_nat n * announce_interval_ms)%Z, Nat.modulo (idx + n) (length advs)) |}).
+      destruct (Hupd s' eq_refl eq_refl) as [H2 Ho].
+      exists s', (rsent ++ asent_of a idx n dm),
+             {| k_now := target; k_owed := owed';
+                k_next := Some (a + Z.of_nat n * announce_interval_ms)%Z;
+                k_seen := rev (firstn (Nat.modulo (idx + n) NN) L) |}.
+      assert (Gall : Forall good_sent (rsent ++ asent_of a idx n dm)).
+      { apply Forall_app. split; [eapply Forall_impl; [|exact Gr]; apply good_of_resp |
+                                 eapply Forall_impl; [|exact Ga]; apply good_of_nts]. }
+      split; [reflexivity|]. split; [|split; [exact Gall|split]].
+      + unfold mon_step. cbn [o_sent]. rewrite (i_now _ _ _ I). fold target.
+        rewrite (map_dgram_simple cfg OK) by (eapply Forall_impl; [|exact Gall]; intros x [Gx _]; exact Gx).
+        fold dg. rewrite map_app, filter_app, R1, A1, app_nil_r.
+        rewrite (mon_owed_ok k _ target (map dg rsent) owed' H2 Hunsol).
+        rewrite (mon_adv_advance k dt target _ (map dg (asent_of a idx n dm)) a idx (mpair dm)); auto.
+        * rewrite filter_app, R2, A2. reflexivity.
+        * rewrite filter_app, R3, A3. reflexivity.
+        * rewrite forallb_app, R4, A4. reflexivity.
+        * unfold asent_of. rewrite !map_map. reflexivity.
+        * unfold asent_of. rewrite !map_map. apply map_ext. intros j. unfold L, pairs_of. cbn [dg dg_simple gpair g_type g_usn x_msg].
+          symmetry. apply (map_nth mpair).
+      + constructor; cbn [k_now k_owed k_next k_seen s_now s_pending s_ann s']; auto.
+        split; [reflexivity|]. split; [apply Nat.mod_upper_bound; pose proof NN_pos; fold NN; lia | reflexivity].
+      + unfold strict, s'. cbn [s_ann s_now]. apply ann_strict.
+    - set (s' := {| s_now := target; s_pending := later; s_ann := None |}).
+      destruct (Hupd s' eq_refl eq_refl) as [H2 Ho].
+      exists s', rsent, {| k_now := target; k_owed := owed'; k_next := k_next k; k_seen := k_seen k |}.
+      assert (Gall : Forall good_sent rsent) by (eapply Forall_impl; [|exact Gr]; apply good_of_resp).
+      split; [reflexivity|]. split; [|split; [exact Gall|split]].
+      + unfold mon_step. cbn [o_sent]. rewrite (i_now _ _ _ I). fold target.
+        rewrite (map_dgram_simple cfg OK) by (eapply Forall_impl; [|exact Gall]; intros x [Gx _]; exact Gx).
+        fold dg. rewrite R1.
+        rewrite (mon_owed_ok k _ target (map dg rsent) owed' H2 Hunsol).
+        rewrite mon_adv_quiet; auto. now rewrite A.
+      + constructor; cbn [k_now k_owed k_next k_seen s_now s_pending s_ann s']; auto.
+      + unfold strict, s'. cbn [s_ann]. constructor.
+  Qed.
 End Invariant.
+
+(* ------------------------------------------------------------------ all histories *)
+Definition obs_of (cfg : config) (r : list sent * bool) : step_obs :=
+  {| o_sent := map (dgram_of cfg) (fst r); o_raised := snd r |}.
+
+Section Main.
+  Variable cfg : config.
+  Hypothesis OK : CfgOk cfg.
+
+  Definition ready (s : state) (ops : list sop) : Prop :=
+    strict s \/ exists dt r, ops = OAdvance dt :: r.
+
+  Lemma run_ok : forall ops s k n, Inv cfg s k ops -> ready s ops -> forallb op_ok ops = true ->
+    mon_run cfg n k ops (map (obs_of cfg) (run_from cfg s ops)) = [].
+  Proof.
+    induction ops as [|o r IH]; intros s k n I R Hok; [reflexivity|].
+    cbn [forallb] in Hok. apply andb_true_iff in Hok as [Ho Hr].
+    assert (Step : exists s' out k',
+               sstep cfg s o = (s', out, false) /\
+               mon_step (c_root cfg) k o {| o_sent := map (dgram_of cfg) out; o_raised := false |} = (k', []) /\
+               Forall (good_sent cfg) out /\ Inv cfg s' k' r /\ strict s').
+    { destruct o as [line man st mx dest pick|dt| |].
+      - destruct R as [St|[dt [r' E]]]; [|discriminate]. cbn [sstep]. now apply step_search.
+      - cbn [sstep]. now apply step_advance.
+      - destruct R as [St|[dt [r' E]]]; [|discriminate]. cbn [sstep].
+        destruct (step_stop cfg OK s k r I St) as [A [B [C D]]]. unfold stop. eauto 10.
+      - destruct R as [St|[dt [r' E]]]; [|discriminate]. cbn [sstep].
+        destruct (step_noop cfg s k r I St) as [A B]. eexists s, [], _. split; [reflexivity|].
+        split; [exact A|]. split; [constructor|]. split; [exact B | exact St]. }
+    destruct Step as [s' [out [k' [E1 [E2 [G [I' St']]]]]]].
+    cbn [run_from]. rewrite E1. cbn [map mon_run]. unfold obs_of at 1. cbn [fst snd]. rewrite E2.
+    change (obs_of cfg (out, false)) with {| o_sent := map (dgram_of cfg) out; o_raised := false |}.
+    rewrite (step_failures_ok cfg OK out G). cbn [List.app map].
+    apply IH; [exact I' | now left | exact Hr].
+  Qed.
+
+  Lemma Inv0 ops : NoDup (flat_map op_dests ops) -> Inv cfg state0 mon0 (OAdvance 0 :: ops).
+  Proof.
+    intros H. constructor; cbn [state0 mon0 k_now s_now k_owed s_pending k_next k_seen s_ann].
+    - reflexivity.
+    - constructor.
+    - intros p [].
+    - exact H.
+    - split; [reflexivity|]. split; [apply (NN_pos cfg) | reflexivity].
+  Qed.
+End Main.
+
+Theorem spec_holds : forall i : input, dom i = true -> failures i (model_run i) = [].
+Proof.
+  intros [cfg ops] H. unfold dom in H. apply andb_true_iff in H as [Hc Ho].
+  pose proof (cfg_ok_facts cfg Hc) as OK. unfold ops_ok in Ho. apply andb_true_iff in Ho as [Ho Hd].
+  apply (nodupb_NoDup N.eqb N.eqb_spec) in Hd.
+  unfold failures, spec_failures, model_run, run.
+  change (map (fun r => {| o_sent := map (dgram_of cfg) (fst r); o_raised := snd r |})) with (map (obs_of cfg)).
+  apply (run_ok cfg OK).
+  - now apply Inv0.
+  - right. eauto.
+  - cbn [forallb op_ok]. rewrite Ho. reflexivity.
+Qed.
